@@ -76,6 +76,11 @@ CLAIMS = {
         text="Source and destination trees over a 4-name universe (so every type pair collides) are combined with source arguments ('/', any entry, wildcards), destination arguments (existing directory/non-directory, new, nested new, trailing separator) and the options dir-contents / always-replace / wildcards. The harness's overlay model (destination selection, merge, replace, conflict => error with obstacle intact, always-replace) must agree with the real copy on success vs error and, on success, on the complete resulting tree; the same copy is then repeated and must agree with the model again and change nothing when its landing place is unchanged. Sampled, no proof.",
         note="Destination arguments through symlinks are C14's domain; metadata of merged directories and of created parents is unspecified; wildcard sources go to directory-like destinations and are not combined with hard-linked sources.",
         ref="4 C15"),
+    "C03": dict(
+        technique="rapid-generated hostile packet scripts (legal STAT sequences with 0-3 mutations and packet injections) executed by a reference sender against the real Receive inside a chrooted sub-process; lstat-only snapshot of the whole jail; independent stream classification; native fuzz over the same generator in thorough",
+        text="A hostile reference sender feeds the real receiver mutated streams ('..', '.', empty, absolute, unclean, backslashed and NUL paths; unordered, duplicated and parent-less entries; children of files and symlinks; hard links to unknown/escaping names incl. special mode bits; symlinks with xattrs and outside targets; unsolicited, late and oversized DATA; early FIN/ERR/marker/EOF) into destinations that already hold symlinks to an outside sentinel tree, in normal, merge and metadata-only mode. The receiver runs chrooted in a throw-away jail; the parent compares an lstat snapshot of everything outside dest (incl. dest's own entry and its parent) bit for bit, and checks that a stream the independent classification calls offending at entry k fails and applies nothing from k on, and that a process crash never happens. Sampled + coverage-guided (thorough), no proof.",
+        note="TOCTOU races with a concurrently changing destination are out of scope. A hard link naming an earlier directory/symlink/link member is 'unspecified' (containment only).",
+        ref="4 C03"),
 }
 
 NOT_YET = "check not built yet in this round (planned, see DESIGN.md section 9)"
